@@ -188,9 +188,9 @@ pub fn c01_focus() -> Focus {
 pub fn c01_scn(name: &str, full: bool) -> ChatScn {
     let mut s = ChatScn::new(name, Cfg::default(), vec![part(0, "alice", "alicia", "au"), part(1, "bob", "bobby", "bu"), part(2, "carol", "caro", "cu"), part(3, "dave", "davy", "du")], 0);
     let churn: Vec<&'static str> = if full {
-        vec!["JOIN #x", "JOIN #y", "PART #x", "KICK #x {peer}", "NICK {alt}", "NICK {peer}", "MODE #x +v {peer}", "MODE #x +h {peer}", "MODE #x +o {peer}", "MODE #x -o {peer}", "MODE #x +q {peer}", "QUIT"]
+        vec!["JOIN #x", "JOIN #y", "PART #x", "KICK #x {peer}", "NICK {alt}", "NICK {peer}", "MODE #x +v {peer}", "MODE #x +h {peer}", "MODE #x +o {peer}", "MODE #x -o {peer}", "MODE #x +q {peer}", "MODE #x +n", "MODE #x -n", "MODE #x +s", "QUIT"]
     } else {
-        vec!["JOIN #x", "JOIN #y", "PART #x", "KICK #x {peer}", "NICK {alt}", "NICK {peer}", "MODE #x +v {peer}", "MODE #x +o {peer}", "QUIT"]
+        vec!["JOIN #x", "JOIN #y", "PART #x", "KICK #x {peer}", "NICK {alt}", "NICK {peer}", "MODE #x +v {peer}", "MODE #x +o {peer}", "MODE #x +n", "QUIT"]
     };
     for slot in 0..3 {
         for t in &churn {
@@ -199,7 +199,7 @@ pub fn c01_scn(name: &str, full: bool) -> ChatScn {
     }
     s.ends = vec!["eof"];
     // the churn steps are judged only on the state that determines audiences
-    s.focus = Focus::state_only(&[Cat::Membership, Cat::Ranks, Cat::UserExistence, Cat::ChanExistence, Cat::UserIdentity]);
+    s.focus = Focus::state_only(&[Cat::Membership, Cat::Ranks, Cat::UserExistence, Cat::ChanExistence, Cat::UserIdentity, Cat::ChanFlags]);
     s.invariants = vec!["rank-set", "membership-symmetry", "dangling-member"];
     let mut probes: Vec<&'static str> = vec![];
     for t in ["PRIVMSG #x :hi", "PRIVMSG #x :a b :c d", "PRIVMSG #x ::lead", "PRIVMSG #x :", "PRIVMSG #x :trail  ", "NOTICE {peer} : ", "NOTICE #x :hi", "PRIVMSG {peer} :hi", "PRIVMSG {peer} :a b :c d", "NOTICE {peer} :", "PRIVMSG {me} :hi", "PRIVMSG #x,{peer} :hi", "NOTICE #x,{peer} :hi", "PRIVMSG #x,#x :hi", "PRIVMSG {peer},{peer} :hi", "PRIVMSG #x,{peer},#x :hi", "NOTICE {peer},#x,nosuch,{peer} :hi", "PRIVMSG #x,nosuch,#nochan :hi", "NOTICE #x,nosuch,#nochan :hi", "PRIVMSG @#x :hi", "PRIVMSG +#x :hi", "NOTICE +#x :hi", "PRIVMSG %#x :hi", "PRIVMSG ~#x :hi", "PRIVMSG @+#x :hi", "NOTICE @+#x :hi", "PRIVMSG #y :hi", "PRIVMSG #y,#x :a b"] {
@@ -289,7 +289,7 @@ pub fn c07_scn(name: &str, full: bool) -> ChatScn {
     for t in a {
         s.alphabet_for.push((0, t));
     }
-    for t in ["JOIN #c", "JOIN #c k", "JOIN #c j", "JOIN #c wrong", "PART #c", "NICK {alt}", "JOIN #q1", "JOIN #q2", "PART #q1", "JOIN #q1,#c", "JOIN #c,#q2 k,x"] {
+    for t in ["JOIN #c", "JOIN #c k", "JOIN #c j", "JOIN #c wrong", "PART #c", "NICK {alt}", "MODE #c +b zed!*@*", "MODE #c -e bob!*@*", "MODE #c -i", "JOIN #q1", "JOIN #q2", "PART #q1", "JOIN #q1,#c", "JOIN #c,#q2 k,x"] {
         s.alphabet_for.push((1, t));
     }
     s.focus = c07_focus();
@@ -669,7 +669,7 @@ pub fn c09_scn(name: &str, full: bool) -> ChatScn {
     for t in founder {
         s.alphabet_for.push((0, t));
     }
-    let mut all: Vec<&'static str> = vec!["KICK #c {peer}", "KICK #c {peer} :r s", "KICK #c {me}", "KICK #c ghost", "KICK #c {peer},ghost", "KICK #c {peer},{me}", "PART #c", "TOPIC #c :t", "TOPIC #c :", "INVITE {peer} #c", "INVITE ghost #c"];
+    let mut all: Vec<&'static str> = vec!["KICK #c {peer}", "KICK #c {peer} :r s", "KICK #c {me}", "KICK #c ghost", "KICK #c {peer},ghost", "KICK #c {peer},{me}", "KICK #c bob,carol,bob", "PART #c", "TOPIC #c :t", "TOPIC #c :", "INVITE {peer} #c", "INVITE ghost #c"];
     if full {
         all.extend(["TOPIC #c :a :b", "KICK #c alice,bob", "KICK #c carol,bob :out", "INVITE {me} #c"]);
     }
